@@ -38,9 +38,10 @@ enum Kind
   B_UNVERIFIED_PTR,
   B_GRANT,
   B_DENY,
+  B_MEMCMP_CELL,
   K_COUNT
 };
-static const char* kKind[] = { "memset", "memcpy_from_app", "memcpy_from_sandbox", "memcmp", "range", "string", "buffer_address", "unverified_safe_pointer", "grant_access", "deny_access" };
+static const char* kKind[] = { "memset", "memcpy_from_app", "memcpy_from_sandbox", "memcmp", "range", "string", "buffer_address", "unverified_safe_pointer", "grant_access", "deny_access", "memcmp_through_pointer_cell" };
 static_assert(sizeof(kKind) / sizeof(kKind[0]) == K_COUNT);
 
 enum Expect
@@ -95,10 +96,11 @@ struct BulkWorld : World
     int logsz = 12;
     int registry = r.chance(1, 2);
     int mmu = r.chance(1, 6);
-    p.cfg = { logsz, registry, mmu };
+    int deny_in_place = r.chance(1, 2);
+    p.cfg = { logsz, registry, mmu, deny_in_place };
     int64_t S = 1LL << logsz;
     int n = (int)r.range(2, thorough ? 24 : 12);
-    std::vector<unsigned> w = { 8, 8, 8, 6, 8, 5, 6, 8, 6, 5 };
+    std::vector<unsigned> w = { 8, 8, 8, 6, 8, 5, 6, 8, 6, 7, (unsigned)(mmu ? 10 : 0) };
     for (auto& x : w)
       if (r.chance(1, 5))
         x = 0;
@@ -609,38 +611,131 @@ struct BulkWorld : World
     }
   }
 
-  void op_deny(const Op& op)
+  template<class T>
+  void op_deny_t(const Op& op)
   {
     bool null = op.a[0] == 1;
-    uint64_t off = (uint64_t)op.a[1] & (S - 1);
+    uint64_t off = ((uint64_t)op.a[1] & (S - 1)) & ~(uint64_t)(sizeof(T) - 1);
     uint64_t num = (uint64_t)op.a[2];
-    auto p = ptr_at<char>(0, (int64_t)off, null);
+    auto p = ptr_at<T>(0, (int64_t)off, null);
     uintptr_t a = (uintptr_t)p.UNSAFE_unverified();
-    bool ok = !null && num >= 1 && in_region(0, a, num);
-    int fault = (int)((uint64_t)op.a[5] % 3);
-    g_fault.grant_refuse = 1;
-    if (fault == 1)
+    unsigned __int128 bytes = (unsigned __int128)num * sizeof(T);
+    bool ok = !null && num >= 1 && in_region(0, a, bytes);
+    int mode = (int)((uint64_t)op.a[5] % 4); // 0 backend may hand the buffer over in place, 1/3 refused -> copy, 2 refused + host malloc fails
+    if (mode != 0)
+      g_fault.grant_refuse = 1;
+    if (mode == 2)
       g_host_malloc_fail = 1;
     Snap before = snap();
     bool copied = false;
-    char* got = nullptr;
+    T* got = nullptr;
     Outcome o = guarded([&] { got = rlbox::copy_memory_or_deny_access(*sb[0], p, (size_t)num, false, copied); });
     g_fault.clear();
     g_host_malloc_fail = 0;
-    C->ev("deny off=%llu num=%llu fault=%d -> %s", (unsigned long long)off, (unsigned long long)num, fault, oname(o));
+    bool in_place = got != nullptr && (uintptr_t)got == a;
+    C->ev("deny<%zu> off=%llu num=%llu mode=%d -> %s in_place=%d", sizeof(T), (unsigned long long)off, (unsigned long long)num, mode, oname(o), (int)in_place);
+    if (in_place)
+      C->probe("deny_access_handed_over_in_place");
     Snap after = snap();
-    if (o == OK && got && !ok)
-      C->violate("C10", "invalid_request_proceeded@deny_access", "%llu bytes from offset %llu", (unsigned long long)num, (unsigned long long)off);
-    else if (o == OK && got && memcmp(got, &before.reg[0][off], (size_t)num) != 0)
+    if (num == 0) {
+      // zero elements: nothing is required either way
+    } else if (o == OK && got && !ok)
+      C->violate("C10",
+                 std::string(in_place ? "raw_pointer_without_room_for_its_elements@" : "invalid_request_proceeded@") + "deny_access",
+                 "%llu elements of %zu bytes from offset %llu; the sandbox ends %llu bytes after it",
+                 (unsigned long long)num,
+                 sizeof(T),
+                 (unsigned long long)off,
+                 (unsigned long long)(S - off));
+    else if (o == OK && got && !in_place && memcmp(got, &before.reg[0][off], (size_t)bytes) != 0)
       C->violate("C10", "request_not_carried_out@deny_access", "copy differs from the sandbox range");
-    else if (o != OK && ok && fault != 1 && num <= 65536)
+    else if (o != OK && ok && mode != 2 && num <= 65536)
       C->violate("C10", "valid_request_refused@deny_access", "%s", g_last_abort_msg.c_str());
     if (!C->stop)
       diff_ok(before, after, {}, "deny_access");
     if (!C->stop && ok)
-      reads_ok({ Range{ 0, (size_t)off, (size_t)num } }, "deny_access");
-    if (got)
+      reads_ok({ Range{ 0, (size_t)off, (size_t)bytes } }, "deny_access");
+    if (got && !in_place)
       free(got);
+  }
+  void op_deny(const Op& op)
+  {
+    switch ((int)((uint64_t)op.a[3] % 3)) {
+      case 0:
+        op_deny_t<char>(op);
+        break;
+      case 1:
+        op_deny_t<short>(op);
+        break;
+      default:
+        op_deny_t<double>(op);
+        break;
+    }
+  }
+
+  // memcmp whose first operand is a pointer that lives in sandbox memory; the guest retargets that cell
+  // at RLBox's k-th access to the region (trap-MMU runs only)
+  struct CellFault
+  {
+    uint8_t* gcell;
+    uint64_t k;
+    uint32_t value;
+    bool fired;
+  };
+  static void cell_hook(uint64_t k, uint32_t, bool, void* ud)
+  {
+    auto* f = (CellFault*)ud;
+    if (!f->fired && k == f->k) {
+      memcpy(f->gcell, &f->value, 4);
+      f->fired = true;
+    }
+  }
+  void op_memcmp_cell(const Op& op)
+  {
+    if (!mmu_on)
+      return;
+    const uint32_t celloff = 64;
+    uint64_t off = (uint64_t)op.a[1] & (S - 1), soff = (uint64_t)op.a[4] & (S - 1);
+    if (off < 128)
+      off = 128;
+    uint64_t num = (uint64_t)op.a[2];
+    if (num > 64)
+      num = 1 + num % 64;
+    if (num == 0)
+      num = 1;
+    uint32_t rep = (uint32_t)off;
+    memcpy(impl[0]->mem.gbase + celloff, &rep, 4);
+    auto cell = sb[0]->UNSAFE_accept_pointer(reinterpret_cast<char**>(impl[0]->mem.base + celloff));
+    auto s = ptr_at<char>(0, (int64_t)soff, false);
+    CellFault cf;
+    cf.gcell = impl[0]->mem.gbase + celloff;
+    cf.k = (uint64_t)((uint64_t)op.a[5] % 5);
+    cf.value = (uint32_t)(S - 1 - (uint64_t)op.a[3] % 4); // a few bytes before the end of the region
+    cf.fired = false;
+    Snap before = snap();
+    int got = 0;
+    mmu::arm(impl[0]->mem.base, S, cf.k ? cell_hook : nullptr, &cf);
+    Outcome o = attempt([&] { got = rlbox::memcmp(*sb[0], *cell, s, (size_t)num).UNSAFE_unverified(); });
+    C->st.steps += mmu::g.count;
+    mmu::disarm();
+    C->ev("memcmp_through_pointer_cell off=%llu soff=%llu num=%llu strike@%llu fired=%d -> %s", (unsigned long long)off, (unsigned long long)soff, (unsigned long long)num, (unsigned long long)cf.k, (int)cf.fired, oname(o));
+    if (cf.fired)
+      C->fired("F2_pointer_cell_retargeted_during_memcmp");
+    Snap after = snap();
+    std::vector<Range> allowed = { Range{ 0, celloff, 4 } };
+    if (off + num <= S)
+      allowed.push_back(Range{ 0, (size_t)off, (size_t)num });
+    if (soff + num <= S)
+      allowed.push_back(Range{ 0, (size_t)soff, (size_t)num });
+    if (cf.fired && (uint64_t)cf.value + num <= S)
+      allowed.push_back(Range{ 0, (size_t)cf.value, (size_t)num });
+    if (!diff_ok(before, after, { Range{ 0, celloff, 4 } }, "memcmp_through_pointer_cell"))
+      return;
+    if (!cf.fired && off + num <= S && soff + num <= S && o != OK)
+      C->violate("C10", "valid_request_refused@memcmp_through_pointer_cell", "%s", g_last_abort_msg.c_str());
+    if (!C->stop)
+      reads_ok(allowed, "memcmp_through_pointer_cell");
+    (void)got;
   }
 
   void run(const Plan& p, Ctx& c) override
@@ -653,6 +748,7 @@ struct BulkWorld : World
     mmu_on = p.cfg.size() > 2 && p.cfg[2];
     Sbx::cfg.registry = registry;
     Sbx::cfg.mmu = mmu_on;
+    Sbx::cfg.deny_in_place = p.cfg.size() > 3 && p.cfg[3];
     S = Sbx::cfg.size;
     arena = (uint8_t*)mmap(nullptr, ARENA, PROT_READ | PROT_WRITE, MAP_PRIVATE | MAP_ANONYMOUS, -1, 0);
     appbuf = arena + 4096 + 64;
@@ -702,6 +798,9 @@ struct BulkWorld : World
           break;
         case B_DENY:
           op_deny(op);
+          break;
+        case B_MEMCMP_CELL:
+          op_memcmp_cell(op);
           break;
       }
     }
